@@ -25,10 +25,10 @@ ENV = dict(os.environ, CARGO_NET_OFFLINE='true', CARGO_TARGET_DIR=TARGET, RUSTFL
 #           Allocs/frees Kept-ledger Dumps)
 #  profiles: harness build profiles the property needs
 P = {
- 'C01': dict(families=[('core', 120, 2500, 120), ('mixed', 120, 2500, 120), ('entry', 60, 1200, 120)], aspects='RSD', profiles=['debug'],
+ 'C01': dict(families=[('core', 120, 2500, 120), ('mixed', 120, 2500, 120), ('entry', 60, 1200, 120), ('entryd6', 20, 200, 120)], aspects='RSD', profiles=['debug'],
              theorems=['C01_step_refines', 'C01_run_refines', 'C01_run_refines_no_fuse', 'C01_len']),
  'C02': dict(families=[('core', 120, 2000, 120), ('entry', 60, 1000, 120), ('churn', 6, 60, 6000), ('big', 1, 2, 20000)], big_thorough=120000, aspects='SHA', profiles=['release'],
-             theorems=['C02_insert_bounded', 'C02_lookup_constant', 'C02_removal_constant']),
+             theorems=['C02_insert_bounded', 'C02_lookup_constant', 'C02_removal_constant', 'C02_entry_step_bounded', 'C02_entry_chain_bounded']),
  'C03': dict(families=[('core', 150, 2500, 120), ('iter', 60, 1000, 120), ('big', 1, 2, 12000)], big_thorough=120000, aspects='SA', profiles=['release'],
              theorems=['C03_step', 'C03_two_tables']),
  'C04': dict(families=[('capacity', 150, 2500, 120), ('core', 100, 1500, 120), ('clone', 40, 600, 120)], aspects='RSA', profiles=['debug', 'release'],
@@ -43,6 +43,9 @@ P = {
              theorems=['C14_eq_iff', 'C14_eq_is_equivalence', 'C14_eq_false_when_differing', 'C14_lookup_by_contents', 'C14_iteration_by_contents']),
  'C10': dict(families=[('capacity', 200, 3000, 120), ('mixed', 60, 1000, 120)], aspects='RSA', profiles=['debug', 'release'],
              theorems=['C10_with_capacity', 'C10_reserve', 'C10_reserved_inserts', 'C10_try_reserve_err', 'C10_reserve_panic', 'C10_never_silent', 'C10_shrink']),
+ 'C12': dict(families=[('entry', 200, 3000, 120), ('mixed', 60, 1000, 120), ('entryd6', 60, 600, 120)], aspects='RSD', profiles=['debug', 'release'],
+             theorems=['C12_occupied_iff_present', 'C12_step_acts_on_designated_element', 'C12_inserting_call_handle_in_main', 'C12_entry_chain_refines',
+                       'C12_raw_entry_chain_refines', 'C12_raw_entry_readonly', 'C12_replace_none_then_insert_one_element', 'C12_no_panic_outside_D6', 'C12_D6_refuted_witness']),
  'C05': dict(families=[('mixed', 120, 2000, 120), ('entry', 80, 1500, 120), ('iter', 80, 1500, 120)], aspects='RS', profiles=['debug', 'release'],
              theorems=['C05_no_fault', 'C05_cursor_agrees']),
 }
